@@ -36,4 +36,104 @@ def holds (regs : List Reg) (path : QStr) (accepted : Bool) (r : Option C02.Req)
        (if m.readAll then (slots obs).all (fun e => e.2 ≥ rq.n) else true) &&
        (if !m.readAll || rq.rest.length ≥ rq.n then (slots obs).length == 1 else true))
 
+/-! ## Theorems: dispatch (pure, no socket run) -/
+/-- the entry used is registered under exactly the requested name, and no later registration
+    carries that name: `QMap::insert` replaces -/
+theorem lookup_exact {regs : List Reg} {path : QStr} {m : Reg} (h : lookup regs path = some m) :
+    m.name = path ∧ ∃ pre post, regs = pre ++ m :: post ∧ ∀ r ∈ post, r.name ≠ path := by
+  unfold lookup at h
+  obtain ⟨hp, as, bs, he, hn⟩ := List.find?_eq_some_iff_append.mp h
+  refine ⟨by simpa using hp, bs.reverse, as.reverse, ?_, ?_⟩
+  · have := congrArg List.reverse he
+    simpa using this
+  · intro r hr
+    have := hn r (by simpa using hr)
+    simpa using this
+
+theorem lookup_none_iff {regs : List Reg} {path : QStr} :
+    lookup regs path = none ↔ ∀ r ∈ regs, r.name ≠ path := by
+  unfold lookup
+  simp
+
+/-- the converse: the last registration under the name is the one found -/
+theorem lookup_last (pre post : List Reg) (m : Reg) (h : ∀ r ∈ post, r.name ≠ m.name) :
+    lookup (pre ++ m :: post) m.name = some m := by
+  unfold lookup
+  rw [List.find?_eq_some_iff_append]
+  refine ⟨by simp, post.reverse, pre.reverse, by simp, ?_⟩
+  intro r hr
+  have := h r (by simpa using hr)
+  simpa using this
+theorem unknown_404 {regs : List Reg} {path : QStr} (h : lookup regs path = none) (s : Sock) :
+    onHp regs path s = [.err 404 none] ∧ onRcf regs path s = [] := by
+  unfold onHp onRcf; rw [h]; exact ⟨rfl, rfl⟩
+
+theorem bad_500 (m : Reg) (s : Sock) (h : m.good = false) : invoke m s = [.err 500 none] := by
+  unfold invoke; rw [h]; rfl
+
+theorem good_invoke (m : Reg) (s : Sock) (h : m.good = true) :
+    invoke m s = [.note (.slot m.idx (Sock.bytesAvailable s))] := by
+  unfold invoke; rw [h]; rfl
+
+/-- every reaction of the handler is one of: nothing, the invocation of the entry found, 404 -/
+theorem onHp_cases (regs : List Reg) (path : QStr) (s : Sock) :
+    (lookup regs path = none ∧ onHp regs path s = [.err 404 none]) ∨
+    (∃ m, lookup regs path = some m ∧ (onHp regs path s = invoke m s ∨ onHp regs path s = [])) := by
+  unfold onHp
+  cases h : lookup regs path with
+  | none => exact Or.inl ⟨rfl, rfl⟩
+  | some m =>
+    right; refine ⟨m, rfl, ?_⟩
+    simp only; split
+    · exact Or.inl rfl
+    · exact Or.inr rfl
+
+theorem onRcf_cases (regs : List Reg) (path : QStr) (s : Sock) :
+    onRcf regs path s = [] ∨ (∃ m, lookup regs path = some m ∧ onRcf regs path s = invoke m s) := by
+  unfold onRcf
+  cases h : lookup regs path with
+  | none => exact Or.inl rfl
+  | some m =>
+    simp only; split
+    · exact Or.inr ⟨m, rfl, rfl⟩
+    · exact Or.inl rfl
+
+theorem invoke_slot {m : Reg} {s : Sock} {i a : Nat} (h : ApiOp.note (.slot i a) ∈ invoke m s) :
+    i = m.idx ∧ a = Sock.bytesAvailable s ∧ m.good = true := by
+  unfold invoke at h
+  split at h
+  · rename_i hg
+    simp at h
+    exact ⟨h.1, h.2, hg⟩
+  · simp at h
+
+/-- a slot observation produced by either reaction names the entry registered (last) under
+    exactly the requested path, which is usable, and carries `bytesAvailable()` of that moment -/
+theorem never_other_slot {regs : List Reg} {path : QStr} {s : Sock} {i a : Nat}
+    (h : ApiOp.note (.slot i a) ∈ onHp regs path s ∨ ApiOp.note (.slot i a) ∈ onRcf regs path s) :
+    ∃ m, lookup regs path = some m ∧ i = m.idx ∧ m.name = path ∧ m.good = true ∧
+      a = Sock.bytesAvailable s := by
+  rcases h with h | h
+  · rcases onHp_cases regs path s with ⟨_, e⟩ | ⟨m, hm, e | e⟩
+    · rw [e] at h; simp at h
+    · rw [e] at h
+      obtain ⟨h1, h2, h3⟩ := invoke_slot h
+      exact ⟨m, hm, h1, (lookup_exact hm).1, h3, h2⟩
+    · rw [e] at h; simp at h
+  · rcases onRcf_cases regs path s with e | ⟨m, hm, e⟩
+    · rw [e] at h; simp at h
+    · rw [e] at h
+      obtain ⟨h1, h2, h3⟩ := invoke_slot h
+      exact ⟨m, hm, h1, (lookup_exact hm).1, h3, h2⟩
+
+/-! non-vacuity: names "a", "ab" (a prefix), "" and a re-registration of "a" -/
+def regsEx : List Reg :=
+  [⟨[97], 0, true, true⟩, ⟨[97, 98], 1, true, false⟩, ⟨[], 2, false, true⟩, ⟨[97], 3, true, false⟩]
+
+example : (lookup regsEx [97]).map (·.idx) = some 3 := by decide
+example : (lookup regsEx [97, 98]).map (·.idx) = some 1 := by decide
+example : (lookup regsEx []).map (·.idx) = some 2 := by decide
+example : lookup regsEx [97, 98, 99] = none := by decide
+example : lookup regsEx [98] = none := by decide
+
 end Qhttp.C15
